@@ -52,6 +52,10 @@ public:
 	// full-stack mode: a unit that passed tap / filter is handed to a real channel endpoint instead of
 	// being queued here (the endpoint's bytes then travel through simulated descriptors)
 	std::function<void(size_t src, size_t dst, const Unit &u)> deliver_override;
+	// full-stack mode of the event-loop scenarios (manual hand-over): the unit is framed by a real endpoint at
+	// once (returns how many of its integers were accepted), its bytes stay invisible until hand() releases them
+	std::function<size_t(size_t src, size_t dst, const Unit &u)> frame_override;
+	std::function<void(size_t src, size_t dst, const Unit &u)> on_hand;
 	uint64_t units_sent, ints_sent, units_handed;
 	uint64_t tag;                     // history tag to distinguish several nets
 
@@ -81,6 +85,15 @@ public:
 		}
 		if (!auto_deliver)
 		{
+			if (frame_override)
+			{
+				size_t k = frame_override(src, dst, u);
+				if (k == 0)
+					return;
+				Unit v = u; v.ints.resize(k);
+				flight[src][dst].push_back(v);
+				return;
+			}
 			flight[src][dst].push_back(u);
 			return;
 		}
@@ -132,6 +145,8 @@ public:
 			inbox[dst][src].push_back(u.ints[k]);
 		units_handed++;
 		S->hist.add(H_RECV, (tag << 32) | (src << 16) | dst, u.ints.size());
+		if (on_hand)
+			on_hand(src, dst, u);
 		return true;
 	}
 
